@@ -1,0 +1,62 @@
+//go:build verif
+
+// Contracts for indexes (C03): what each index callback does to the index bucket, per operation.
+// Bucket content model: bktHas/bktVal/bktSub (trusted bbolt contracts). Comments only.
+package boltz
+
+// uxB(index, tx): the bbolt bucket that holds a unique index's entries in a transaction (stable while the operation runs)
+//@ spec uxB(index Int, tx Int) Int
+//@ func (*TypedBucket).DeleteValue
+//@   props C03
+//@   assume bucket.ErrorHolderImpl != nil && bucket.Bucket != nil
+//@   modifies bucket.Err, bktHas[bucket.Bucket]
+//@   ensures result == bucket
+//@   ensures[skipped] old(bucket.Err) != nil ==> bucket.Err == old(bucket.Err) && bktHas[bucket.Bucket] == old(bktHas[bucket.Bucket])
+//@   ensures[deleted] old(bucket.Err) == nil && bucket.Err == nil ==> bktHas[bucket.Bucket] == sto(old(bktHas[bucket.Bucket]), str(key), old(bktHas[bucket.Bucket][str(key)]) && old(bktSub[bucket.Bucket][str(key)]) != 0)
+//@   ensures[failed-atomically] old(bucket.Err) == nil && bucket.Err != nil ==> bktHas[bucket.Bucket] == old(bktHas[bucket.Bucket])
+//@ func (*TypedBucket).PutValue
+//@   props C03
+//@   assume bucket.ErrorHolderImpl != nil && bucket.Bucket != nil
+//@   modifies bucket.Err, bktHas[bucket.Bucket], bktVal[bucket.Bucket]
+//@   ensures result == bucket
+//@   ensures[skipped] old(bucket.Err) != nil ==> bucket.Err == old(bucket.Err) && bktHas[bucket.Bucket] == old(bktHas[bucket.Bucket]) && bktVal[bucket.Bucket] == old(bktVal[bucket.Bucket])
+//@   ensures[written] old(bucket.Err) == nil && bucket.Err == nil ==> bktHas[bucket.Bucket] == sto(old(bktHas[bucket.Bucket]), str(key), true) && bktVal[bucket.Bucket] == sto(old(bktVal[bucket.Bucket]), str(key), str(value)) && bktSub[bucket.Bucket][str(key)] == 0
+//@   ensures[failed-atomically] old(bucket.Err) == nil && bucket.Err != nil ==> bktHas[bucket.Bucket] == old(bktHas[bucket.Bucket]) && bktVal[bucket.Bucket] == old(bktVal[bucket.Bucket])
+
+// abbreviations: the value the indexed symbol has on the row now, and the value remembered before the write
+//@ define uxNew(index, ctx) = symBytes(index.symbol, str(ctx.RowId))
+//@ define uxB2(index, ctx) = uxB(index, ctxTx[ctx.Ctx])
+
+// remember the value before the write
+//@ func (*uniqueIndex).ProcessBeforeUpdate
+//@   props C03
+//@   nosafety
+//@   assume[index-bucket-initialised] idxBucketPresent(index, ctxTx[ctx.Ctx])
+//@   modifies *
+//@   ensures[index-untouched] bktHas == old(bktHas) && bktVal == old(bktVal) && bktSub == old(bktSub)
+//@   ensures[remembers-the-old-value] !old(holderFailed[ctx.ErrHolder]) ==> has(ctx.AtomStates, index) && str(ctx.AtomStates[index]) == old(uxNew(index, ctx))
+
+// after the write: unchanged value - nothing happens; otherwise the old value's entry is removed and the new value
+// maps to this row; a new value that is already taken is a duplicate error; an empty value in a non-nullable index is an error
+//@ func (*uniqueIndex).ProcessAfterUpdate
+//@   props C03
+//@   nosafety
+//@   assume[index-bucket-initialised] idxBucketPresent(index, ctxTx[ctx.Ctx])
+//@   modifies *
+//@   ensures[pending-error-does-nothing] old(holderFailed[ctx.ErrHolder]) ==> bktHas == old(bktHas) && bktVal == old(bktVal)
+//@   ensures[unchanged-value-does-nothing] !old(holderFailed[ctx.ErrHolder]) && !old(ctx.IsCreate) && old(str(ctx.AtomStates[index])) == old(uxNew(index, ctx)) ==> bktHas == old(bktHas) && bktVal == old(bktVal) && !holderFailed[ctx.ErrHolder]
+//@   ensures[new-value-maps-to-this-row] !old(holderFailed[ctx.ErrHolder]) && !holderFailed[ctx.ErrHolder] && str_len(old(uxNew(index, ctx))) > 0 && (old(ctx.IsCreate) || old(str(ctx.AtomStates[index])) != old(uxNew(index, ctx))) ==> sel(bktHas[old(uxB2(index, ctx))], old(uxNew(index, ctx))) && sel(bktVal[old(uxB2(index, ctx))], old(uxNew(index, ctx))) == old(str(ctx.RowId))
+//@   ensures[old-value-removed] !old(holderFailed[ctx.ErrHolder]) && !holderFailed[ctx.ErrHolder] && str_len(old(str(ctx.AtomStates[index]))) > 0 && (old(ctx.IsCreate) || old(str(ctx.AtomStates[index])) != old(uxNew(index, ctx))) && old(str(ctx.AtomStates[index])) != old(uxNew(index, ctx)) && old(sel(bktSub[uxB2(index, ctx)], str(ctx.AtomStates[index]))) == 0 ==> !sel(bktHas[old(uxB2(index, ctx))], old(str(ctx.AtomStates[index])))
+//@   ensures[taken-value-is-a-duplicate-error] !old(holderFailed[ctx.ErrHolder]) && str_len(old(uxNew(index, ctx))) > 0 && (old(ctx.IsCreate) || old(str(ctx.AtomStates[index])) != old(uxNew(index, ctx))) && old(sel(bktHas[uxB2(index, ctx)], uxNew(index, ctx))) && old(sel(bktSub[uxB2(index, ctx)], uxNew(index, ctx))) == 0 && old(str(ctx.AtomStates[index])) != old(uxNew(index, ctx)) ==> holderFailed[ctx.ErrHolder]
+//@   ensures[empty-value-needs-nullable] !old(holderFailed[ctx.ErrHolder]) && str_len(old(uxNew(index, ctx))) == 0 && !old(index.nullable) && (old(ctx.IsCreate) || old(str(ctx.AtomStates[index])) != old(uxNew(index, ctx))) ==> holderFailed[ctx.ErrHolder]
+//@   ensures[other-entries-kept] forallStr(k, k != old(uxNew(index, ctx)) && k != old(str(ctx.AtomStates[index])) ==> sel(bktHas[old(uxB2(index, ctx))], k) == sel(old(bktHas[uxB2(index, ctx)]), k) && sel(bktVal[old(uxB2(index, ctx))], k) == sel(old(bktVal[uxB2(index, ctx)]), k))
+
+// before the delete: the value's entry is removed
+//@ func (*uniqueIndex).ProcessBeforeDelete
+//@   props C03
+//@   nosafety
+//@   assume[index-bucket-initialised] idxBucketPresent(index, ctxTx[ctx.Ctx])
+//@   modifies *
+//@   ensures[pending-error-does-nothing] old(holderFailed[ctx.ErrHolder]) ==> bktHas == old(bktHas) && bktVal == old(bktVal)
+//@   ensures[entry-removed] !old(holderFailed[ctx.ErrHolder]) && !holderFailed[ctx.ErrHolder] && str_len(old(uxNew(index, ctx))) > 0 && old(sel(bktSub[uxB2(index, ctx)], uxNew(index, ctx))) == 0 ==> !sel(bktHas[old(uxB2(index, ctx))], old(uxNew(index, ctx)))
+//@   ensures[other-entries-kept] forallStr(k, k != old(uxNew(index, ctx)) ==> sel(bktHas[old(uxB2(index, ctx))], k) == sel(old(bktHas[uxB2(index, ctx)]), k))
